@@ -1,4 +1,5 @@
 CONSTANTS
+  Dev = {}
   Mut = {}
   Names = {"a.example", "b.example"}
   Types = {"A", "NSEC"}
